@@ -52,6 +52,8 @@ pub mod storage;
 pub mod sync;
 pub mod testing;
 pub(crate) mod util;
+#[cfg(aranya_verif)]
+pub mod verif;
 pub mod vm_policy;
 
 pub use crate::{
